@@ -141,7 +141,11 @@ def run_case(args):
                 out["errors"].append({"status": r.status, "error": r.error, "decisions": r.decisions})
             if r.status == "cut":
                 out["events"].append(["cut", r.error])
-            if r.status == "ok" and r.value == "unsat":
+            if r.status == "ok" and r.value == "unsat" and "unknown_feasibility" in r.flags:
+                # a branch side taken because its feasibility query timed out turned out to be infeasible: the path does not
+                # exist, nothing on it counts (no error - the branch decision, not the harness, produced the empty path)
+                out["events"].append(["infeasible_path_after_unknown_branch", str(r.decisions)])
+            elif r.status == "ok" and r.value == "unsat":
                 out["errors"].append({"status": "vacuous", "error": "path condition unsatisfiable at end of path",
                                       "decisions": r.decisions})
             for ev in r.events:
